@@ -90,7 +90,7 @@ func c13resolve(c *core.Ctx, r *core.Report) {
 	}
 	// Resolve and its closures, each with the package functions they call statically (two levels), inlined
 	for _, f := range fns {
-		for _, ii := range core.InlinedInstrs(c, f, 2, isMapping) {
+		for _, ii := range core.InlinedInstrs(c, f, c.Depth(2), isMapping) {
 			check(ii)
 		}
 	}
